@@ -28,6 +28,7 @@ import (
 	"github.com/olive-io/bpmn/v2/pkg/id"
 	"github.com/olive-io/bpmn/v2/pkg/tracing"
 
+	"github.com/olive-io/bpmn/v2/internal/verifhook"
 	_ "github.com/olive-io/bpmn/v2/pkg/expression/expr"
 	_ "github.com/olive-io/bpmn/v2/pkg/expression/xpath"
 )
@@ -279,6 +280,7 @@ func (f *flow) Start(ctx context.Context) {
 		f.tracer.Send(VisitTrace{Node: f.current.Element()})
 		for {
 		await:
+			verifhook.Point("flow.await")
 			select {
 			case <-ctx.Done():
 				f.tracer.Send(CancellationFlowTrace{FlowId: f.id, Node: f.current.Element()})
@@ -294,6 +296,7 @@ func (f *flow) Start(ctx context.Context) {
 					goto await
 				}
 			case action := <-f.current.NextAction(ctx, f):
+				verifhook.Point("flow.action")
 				if f.actionTransformer != nil {
 					action = f.actionTransformer(f.sequenceFlowId, action)
 				}
